@@ -354,6 +354,10 @@ func vRunSched(w *VWorld, sc *SchedScenario, prefix []int, horizon int) *vsync.E
 	s.NameLock(w.Store.idmux, "Store.idmux")
 	s.NameLock(&w.Store.NamespaceManager.lock, "NamespaceManager.lock")
 	results := make([][]opResult, len(sc.Threads))
+	// token-carrying feed readers (op "tokread"): per thread the token it holds and everything it has received
+	tokens := make([]uint64, len(sc.Threads))
+	received := make([][]string, len(sc.Threads))
+	tokDS := make([]string, len(sc.Threads))
 	var bodies []func()
 	var names []string
 	for ti, th := range sc.Threads {
@@ -362,6 +366,21 @@ func vRunSched(w *VWorld, sc *SchedScenario, prefix []int, horizon int) *vsync.E
 		names = append(names, fmt.Sprintf("client%d", ti))
 		bodies = append(bodies, func() {
 			for oi, op := range th {
+				if op.K == "tokread" {
+					results[ti][oi] = opResult{OK: true}
+					tokDS[ti] = op.DS
+					if ds := w.Dsm.GetDataset(h.DsName(op.DS)); ds != nil {
+						if ch, err := ds.GetChanges(tokens[ti], op.L, false); err == nil {
+							for _, e := range ch.Entities {
+								received[ti] = append(received[ti], h.AbsID(e.ID)+"="+h.AbsContent(e).String())
+							}
+							tokens[ti] = ch.NextToken
+						} else {
+							results[ti][oi] = opResult{Err: err.Error()}
+						}
+					}
+					continue
+				}
 				if isRead(op.K) {
 					d, err := h.readOp(op)
 					if err != nil {
@@ -457,6 +476,35 @@ func vRunSched(w *VWorld, sc *SchedScenario, prefix []int, horizon int) *vsync.E
 	if !explain(nil, make([]int, len(sc.Threads))) {
 		rs, _ := json.Marshal(results)
 		x.Viol = append(x.Viol, fmt.Sprintf("no total order of the operations consistent with each client's order explains the results %s and the final state %s (%s)", rs, impl, why))
+	} else if sc.Oracle == "tokens" {
+		// C02: a reader that follows its tokens, and finally reads to the end, has received the whole feed: nothing
+		// skipped, nothing twice, whatever the writers did in between
+		for ti := range sc.Threads {
+			if tokDS[ti] == "" {
+				continue
+			}
+			ds := w.Dsm.GetDataset(h.DsName(tokDS[ti]))
+			if ds == nil {
+				continue
+			}
+			rest, err1 := ds.GetChanges(tokens[ti], 0, false)
+			full, err2 := ds.GetChanges(0, 0, false)
+			if err1 != nil || err2 != nil {
+				x.Viol = append(x.Viol, fmt.Sprintf("C02:token-reader-error::%v %v", err1, err2))
+				continue
+			}
+			got := append([]string{}, received[ti]...)
+			for _, e := range rest.Entities {
+				got = append(got, h.AbsID(e.ID)+"="+h.AbsContent(e).String())
+			}
+			var want []string
+			for _, e := range full.Entities {
+				want = append(want, h.AbsID(e.ID)+"="+h.AbsContent(e).String())
+			}
+			if strings.Join(got, " ") != strings.Join(want, " ") {
+				x.Viol = append(x.Viol, fmt.Sprintf("C02:token-reader-misses-or-repeats::a reader of %s that followed its tokens while writers were active, and then read to the end, received %v; the feed from the start is %v", tokDS[ti], got, want))
+			}
+		}
 	} else if sc.Oracle == "cat" {
 		// C19: at the quiescent end the catalogue must agree with the datasets; distinct-id counts do not depend on the order
 		m := cloneWorld(order)
